@@ -20,9 +20,9 @@ var suitesByProp = map[string][]func(*runner, *rng){
 	"C13": {suiteOptimize, suiteTtmlOptimize, suiteStylingParsed},
 	"C16": {suiteDur, suiteFracFloat},
 	"C15": {suiteLin},
-	"C01": {suiteSrt},
-	"C02": {suiteVtt, suiteVttNeeds, suiteVttKeyed},
-	"C04": {suiteSsa, suiteSsaModel},
+	"C01": {suiteSrt, suiteLineBoundSrt},
+	"C02": {suiteVtt, suiteVttNeeds, suiteVttKeyed, suiteLineBoundVtt},
+	"C04": {suiteSsa, suiteSsaModel, suiteLineBoundSsa},
 	"C17": {suiteSchedules, suiteStlIO},
 	"C19": {suiteDeterminism},
 	"C08": {suiteTotality, suiteTeletextHostile},
